@@ -17,6 +17,9 @@ AUDIT_TB = [
     "'a poll that returned Pending at T processed everything due at T' hold up to such self-woken re-polls)",
     "assumed: request/response buffer sizes >= 1 (tokio's mpsc::channel(0) panics: a configuration precondition); one "
     "integer-millisecond clock stands for std's and tokio's clocks (the harness keeps them equal)",
+    "third-party code was transcribed from the crate versions in /repo/Cargo.lock (tokio 1.53, tokio-util 0.7.19, "
+    "futures-util 0.3.34, tokio-serde 0.9, serde_json 1.x, bincode 1.3); a different version may behave differently "
+    "(e.g. TakeWhile not latching the end of its inner stream) - AUDIT.md round 2, F17",
 ]
 HDR = ("From Coq Require Import List NArith ZArith Bool.\nImport ListNotations.\n"
        "From TarpcV Require Import Base {mods}.\n")
@@ -1078,6 +1081,9 @@ SPECS["C02"] = {
                   "explicit-poll mode).",
     "design_ref": "DESIGN.md section 6 (C02), section 0",
     "assumptions": ["a spurious wakeup is always allowed", "fewer than 2^64 operations",
+                    "the wake-driven runs follow ONE fixed fair schedule (woken tasks are polled in a fixed order until "
+                    "nothing is woken); that the quiet state does not depend on the schedule is neither proved nor "
+                    "tested (AUDIT.md round 2, F15)",
                     "request buffer and in-flight limit >= 1"],
 }
 
@@ -1261,6 +1267,12 @@ CHAIN_TB = [
     "it'; wakers are not modelled in this part (every component is polled explicitly; wake behaviour is C02's)",
     "harness/src/chain.rs: real chains of depth 1..3 with a forwarding tap on the client end of each link that notes "
     "successful writes (KWire observations)",
+    "the composition theorems are about transport::channel::unbounded() links (the Request moves by value, the deadline "
+    "is carried verbatim); over serde_transport each hop re-bases the deadline and a decode error ends the connection: "
+    "that composition is covered piecewise (C07_deadline_chain, C15, C16), not by Chain.v; no OpenTelemetry layer is "
+    "installed (with one, trace id and sampling decision of a nested call come from the subscriber); the chain never "
+    "drops an inner Channel handle, so the inner dispatches' all-senders-gone shutdown is not exercised in chains "
+    "(AUDIT.md round 2, F9-F11)",
 ]
 CHAIN_NOTE_C04 = (
     " COMPOSITION (part compose, coq/Chain*.v): C04_chain_cascade is proved for EVERY depth d and every op list of fewer "
